@@ -81,6 +81,18 @@ def run(tier, seed):
         for i in want: lines += ["mval m %d" % i, "mlow m %d" % i, "mlow m %d" % (i + 1)]
         cases4.append(Case(c.name, lines, {"spec": s, "want": want}))
     resD = core.run_cases(pid, "vals", cases4)
+    # ---- correspondence: the bit-exact glue model (coq/Mapping/Glue.v, libm answered by the implementation's runtime)
+    ncmp = nmis = 0
+    for res in (resA, resB, resC, resD):
+        for (c, impl, sides, model) in res:
+            for l, a, b in zip(core.instr_lines(c.lines), impl, model):
+                if b == "unsupported": continue
+                ncmp += 1
+                if not core.lines_agree(a, b):
+                    nmis += 1
+                    if nmis <= 3:
+                        rep.violation("glue-%d" % nmis, {"what": "the bit-exact model of the mapping formulas disagrees with the implementation; no clause of the property failed on this input unless reported separately",
+                                                         "correspondence": "coq/Mapping/Glue.v vs ddsketch/mapping", "script": ["mnew m " + c.meta["spec"], l], "implementation": a, "model": b}, found_input=False)
     # ---- oracle
     nfail = 0; evals = 0; samples = []; worst = Fraction(0)
     known = core.load_known_findings()
@@ -122,6 +134,7 @@ def run(tier, seed):
                                  "log-uniform random values over the whole indexable range, every sampled binade boundary 2^k +-0..2 ulps, the implementation's LowerBound(i) of sampled bins +-0..3 ulps; "
                                  "exact-rational oracle: accuracy within alpha+1e-12, containment within 1e-12 relative, Index non-decreasing over the sorted points, int32, reported accuracy within 2^-50. "
                                  "every evaluated point is distinct",
-                         "worst_excess_over_alpha": float(worst), "mappings": len(resD)})
+                         "worst_excess_over_alpha": float(worst), "mappings": len(resD),
+                         "model_lines_compared_bit_for_bit": ncmp, "model_mismatches": nmis})
     rep.assumptions = ["eps_fp = eps_c = 1e-12 relative (DESIGN section 10)"]
     return rep.finish()
